@@ -6,6 +6,7 @@ import (
 	"go/token"
 	"go/types"
 	"os"
+	"reflect"
 	"sort"
 	"strings"
 
@@ -15,6 +16,10 @@ import (
 func init() { register("C17", checkC17) }
 
 func checkC17(p *Prog, r *Report) {
+	r.rule("C17.id-field: Wrapper.SetID stores through FieldByName(\"ID\") of the wrapped value (the field Check validates by its Go name) and GetID reads the ID from the wrapped value on every call; the Wrapper keeps no ID of its own")
+	checkWrapperID(p, r, "C17")
+	r.rule("C17.get-api-only: where Wrapper.getField (or its search helper) matches the key against a json tag it also tests the field's api tag, so Get only reads fields that belong to the resource")
+	checkGetFieldAPIOnly(p, r, "C17")
 	r.rule("C17.field-loops: every loop bounded by NumField() in Wrap, BuildType, Check and the Wrapper's methods visits fields 0 … NumField()-1, so the wrapper reports every declared field (shared with C20)")
 	checkFieldLoopsFull(p, r, "C17")
 	r.rule("C17.set-always-stores: every return of Wrapper.setField is preceded, on every path, by a reflect Set on the located field")
@@ -312,7 +317,16 @@ func checkWrapperGetSet(p *Prog, r *Report) {
 	r.decide(okSet, "C17.id", "(*Wrapper).Set:id", p.pos(set.Pos()), "Set(\"id\", v) calls SetID and returns", "Wrapper.Set does not return after setting the ID (it goes on to look for a field tagged \"id\")")
 	// setField: reflect.Set argument is reflect.ValueOf(v) or the zero of the field type
 	n := 0
-	eachInstr(sf, func(ins ssa.Instruction) {
+	// the value given to setField, also as the parameter of an assignment
+	// helper that every call in setField hands it to
+	givenV := func(x ssa.Value) bool {
+		if x == ssa.Value(sf.Params[2]) {
+			return true
+		}
+		prm, ok := x.(*ssa.Parameter)
+		return ok && boundToInCalls(sf, prm, sf.Params[2])
+	}
+	eachInstrOf(append([]*ssa.Function{sf}, setFieldHelpers(sf)...), func(ins ssa.Instruction) {
 		c, ok := ins.(*ssa.Call)
 		if !ok {
 			return
@@ -334,14 +348,14 @@ func checkWrapperGetSet(p *Prog, r *Report) {
 			}
 			switch fullName(vc.Common().StaticCallee()) {
 			case "reflect.ValueOf":
-				return vc.Common().Args[0] == ssa.Value(sf.Params[2]), "stores reflect.ValueOf(v) for the given v"
+				return givenV(vc.Common().Args[0]), "stores reflect.ValueOf(v) for the given v"
 			case "reflect.(Value).Elem", "reflect.Zero":
 				facts := factsAt(at)
 				if viaEdgeFrom != nil {
 					facts = append(facts, factsAt(viaEdgeFrom)...)
 				}
 				for _, ef := range expandFacts(facts) {
-					if bo, ok := ef.Cond.(*ssa.BinOp); ok && bo.Op == token.EQL && ef.Truth && bo.X == ssa.Value(sf.Params[2]) && isNilConst(bo.Y) {
+					if bo, ok := ef.Cond.(*ssa.BinOp); ok && bo.Op == token.EQL && ef.Truth && givenV(bo.X) && isNilConst(bo.Y) {
 						return true, "stores the field type's zero value for an untyped nil"
 					}
 				}
@@ -391,6 +405,76 @@ func checkWrapperGetSet(p *Prog, r *Report) {
 		}
 	})
 	r.decide(okIface, "C17.get-returns-stored", "getField:returns-Interface()", p.pos(gf.Pos()), "returns the field's value as is", "Wrapper.getField does not return the located field's value as is")
+	// the untyped nil is handed out for nil POINTER fields only (a nil byte
+	// slice is a value of its kind and reads as such)
+	nilOK := func(facts []edgeFact) bool {
+		isNil, isPtr := false, false
+		for _, ef := range expandFacts(facts) {
+			switch c := ef.Cond.(type) {
+			case *ssa.Call:
+				g := c.Common().StaticCallee()
+				if g == nil || !ef.Truth {
+					continue
+				}
+				switch fullName(g) {
+				case "reflect.(Value).IsNil":
+					isNil = true
+				case "strings.HasPrefix":
+					if s, ok := constString(c.Common().Args[1]); ok && s == "*" {
+						isPtr = true
+					}
+				}
+			case *ssa.BinOp:
+				op := c.Op
+				if !ef.Truth {
+					op = negateCmp(op)
+				}
+				if op != token.EQL {
+					continue
+				}
+				for _, pr := range [][2]ssa.Value{{c.X, c.Y}, {c.Y, c.X}} {
+					k, isK := constInt(pr[1])
+					kc, _ := callOf(pr[0])
+					if isK && k == int64(reflect.Ptr) && kc != nil && kc.Common().StaticCallee() != nil && strings.HasSuffix(fullName(kc.Common().StaticCallee()), ".Kind") {
+						isPtr = true
+					}
+				}
+			}
+		}
+		return isNil && isPtr
+	}
+	nNil := 0
+	eachInstr(gf, func(ins ssa.Instruction) {
+		ret, ok := ins.(*ssa.Return)
+		if !ok {
+			return
+		}
+		type src struct {
+			facts []edgeFact
+		}
+		var srcs []src
+		if isNilConst(ret.Results[0]) {
+			srcs = append(srcs, src{factsAt(ret.Block())})
+		} else if phi, ok := ret.Results[0].(*ssa.Phi); ok {
+			for i, e := range phi.Edges {
+				if !isNilConst(e) {
+					continue
+				}
+				pred := phi.Block().Preds[i]
+				facts := append([]edgeFact{}, factsAt(pred)...)
+				if ifi, ok := pred.Instrs[len(pred.Instrs)-1].(*ssa.If); ok && pred.Succs[0] != pred.Succs[1] {
+					facts = append(facts, edgeFact{Cond: ifi.Cond, Truth: pred.Succs[0] == phi.Block(), From: pred})
+				}
+				srcs = append(srcs, src{facts})
+			}
+		}
+		for k, s := range srcs {
+			nNil++
+			r.decide(nilOK(s.facts), "C17.get-returns-stored", fmt.Sprintf("getField:nil-for-nil-pointer:%s#%d", p.describe(ret), k), p.pos(ret.Pos()), "nil is returned for a nil pointer field only",
+				"Wrapper.getField returns the untyped nil without having established that the field is a nil POINTER: a nil byte slice (the zero value of a non-nullable bytes attribute) reads as nil from a wrapped struct and as an empty byte string from a soft resource")
+		}
+	})
+	r.count("nil results of getField", nNil)
 }
 
 func checkEqualHelpers(p *Prog, r *Report) {
@@ -716,13 +800,43 @@ func checkSetAlwaysStores(p *Prog, r *Report) {
 			return
 		}
 		n++
-		stored := mustPassInstr(sf, ret, func(i2 ssa.Instruction) bool {
+		isSet := func(i2 ssa.Instruction) bool {
 			c, ok := i2.(*ssa.Call)
 			if !ok || c.Common().StaticCallee() == nil {
 				return false
 			}
 			nm := fullName(c.Common().StaticCallee())
 			return nm == "reflect.(Value).Set" || nm == "reflect.(Value).SetString"
+		}
+		stored := mustPassInstr(sf, ret, func(i2 ssa.Instruction) bool {
+			if isSet(i2) {
+				return true
+			}
+			// an assignment helper every return of which has stored
+			c, ok := i2.(*ssa.Call)
+			if !ok {
+				return false
+			}
+			g := c.Common().StaticCallee()
+			isHelper := false
+			for _, h := range setFieldHelpers(sf) {
+				if h == g {
+					isHelper = true
+				}
+			}
+			if !isHelper {
+				return false
+			}
+			nRet := 0
+			for _, b := range g.Blocks {
+				if gr, ok := b.Instrs[len(b.Instrs)-1].(*ssa.Return); ok {
+					nRet++
+					if !mustPassInstr(g, gr, isSet) {
+						return false
+					}
+				}
+			}
+			return nRet > 0
 		})
 		r.decide(stored, "C17.set-always-stores", "setField:"+p.describe(ret)+"@"+p.pos(ret.Pos()), p.pos(ret.Pos()), "a Set call precedes this return on every path", "Wrapper.setField can return without having stored anything: some values (e.g. a typed nil pointer) are silently ignored, so Get does not read back what was Set")
 	})
@@ -1003,4 +1117,158 @@ func boundToInCalls(f *ssa.Function, prm *ssa.Parameter, target ssa.Value) bool 
 		}
 	})
 	return n > 0 && all
+}
+
+// setFieldHelpers: the package functions setField calls with a reflect.Value
+// (the located field) among their arguments.
+func setFieldHelpers(sf *ssa.Function) []*ssa.Function {
+	var out []*ssa.Function
+	seen := map[*ssa.Function]bool{}
+	eachInstr(sf, func(ins ssa.Instruction) {
+		c, ok := ins.(*ssa.Call)
+		if !ok || c.Common().IsInvoke() {
+			return
+		}
+		g := c.Common().StaticCallee()
+		if g == nil || g.Pkg != sf.Pkg || g.Blocks == nil || seen[g] || g == sf {
+			return
+		}
+		for _, a := range c.Common().Args {
+			if isReflectValue(a.Type()) {
+				seen[g] = true
+				out = append(out, g)
+				return
+			}
+		}
+	})
+	return out
+}
+
+// checkGetFieldAPIOnly: the function in which Wrapper.getField (or its search
+// helper) matches the key against a field's json tag also tests that field's
+// api tag for emptiness: Get only reads fields that are part of the resource.
+// (Which value is returned for the located field is decided elsewhere; this
+// is the presence of the membership test next to the name test.)
+func checkGetFieldAPIOnly(p *Prog, r *Report, prefix string) {
+	gf := p.Fn("(*Wrapper).getField")
+	if gf == nil {
+		r.fail("anchor (*Wrapper).getField not found")
+		return
+	}
+	n := 0
+	for _, g := range append([]*ssa.Function{gf}, stringHelpers(gf)...) {
+		var jsonCmp ssa.Instruction
+		apiTest := false
+		eachInstr(g, func(ins ssa.Instruction) {
+			bo, ok := ins.(*ssa.BinOp)
+			if !ok || (bo.Op != token.EQL && bo.Op != token.NEQ) {
+				return
+			}
+			for _, pr := range [][2]ssa.Value{{bo.X, bo.Y}, {bo.Y, bo.X}} {
+				k, isTag := tagGetOf(pr[1])
+				if !isTag {
+					continue
+				}
+				if k == "json" {
+					if _, isConst := pr[0].(*ssa.Const); !isConst {
+						jsonCmp = bo
+					}
+				}
+				if k == "api" {
+					apiTest = true
+				}
+			}
+		})
+		if jsonCmp == nil {
+			continue
+		}
+		n++
+		r.decide(apiTest, prefix+".get-api-only", funcName(g)+":"+p.describe(jsonCmp), p.pos(jsonCmp.Pos()), "the name test is accompanied by a test of the api tag",
+			"Wrapper.getField matches a field on its json tag without consulting its api tag: Get can read a struct field that is not part of the resource (one that shares the json tag of an attribute or relationship declared after it)")
+	}
+	r.floor("json-tag matches on the getField path", n, 1)
+}
+
+// checkWrapperID: the Wrapper keeps no ID of its own. SetID writes the struct
+// field named ID (the field Check validates and IDAndType reads) through
+// reflect's FieldByName("ID"), and GetID reads it from the wrapped value on
+// every call - directly or through IDAndType(w.val.Interface()).
+func checkWrapperID(p *Prog, r *Report, prefix string) {
+	setID, getID := p.Fn("(*Wrapper).SetID"), p.Fn("(*Wrapper).GetID")
+	if setID == nil || getID == nil {
+		r.fail("anchors (*Wrapper).SetID / GetID not found")
+		return
+	}
+	fromVal := func(v ssa.Value, recv *ssa.Parameter) bool {
+		ok := false
+		for _, o := range originsDeep(v) {
+			if base, fl, isFl := fieldLoad(o); isFl && fl == "val" && base == ssa.Value(recv) {
+				ok = true
+			}
+		}
+		return ok
+	}
+	isIDField := func(v ssa.Value, recv *ssa.Parameter) bool {
+		c, _ := callOf(v)
+		if c == nil || c.Common().StaticCallee() == nil || fullName(c.Common().StaticCallee()) != "reflect.(Value).FieldByName" {
+			return false
+		}
+		if s, ok := constString(c.Common().Args[1]); !ok || s != "ID" {
+			return false
+		}
+		return fromVal(c.Common().Args[0], recv)
+	}
+	// SetID
+	for _, b := range setID.Blocks {
+		ret, ok := b.Instrs[len(b.Instrs)-1].(*ssa.Return)
+		if !ok {
+			continue
+		}
+		stored := mustPassInstr(setID, ret, func(i2 ssa.Instruction) bool {
+			c, ok := i2.(*ssa.Call)
+			if !ok || c.Common().StaticCallee() == nil {
+				return false
+			}
+			nm := fullName(c.Common().StaticCallee())
+			if nm != "reflect.(Value).SetString" && nm != "reflect.(Value).Set" {
+				return false
+			}
+			return isIDField(c.Common().Args[0], setID.Params[0])
+		})
+		r.decide(stored, prefix+".id-field", "(*Wrapper).SetID:"+p.describe(ret), p.pos(ret.Pos()), "sets the struct field named ID of the wrapped value",
+			"Wrapper.SetID does not store through FieldByName(\"ID\") of the wrapped value on every path: the ID field is the one Check validates by its Go name, whatever its json tag or defined string type, so locating it any other way panics or misses for structs that Check accepts")
+	}
+	// GetID
+	n := 0
+	for _, b := range getID.Blocks {
+		ret, ok := b.Instrs[len(b.Instrs)-1].(*ssa.Return)
+		if !ok || len(ret.Results) != 1 {
+			continue
+		}
+		n++
+		good := true
+		for _, o := range originsDeep(ret.Results[0]) {
+			okOne := false
+			if c, _ := callOf(o); c != nil && c.Common().StaticCallee() != nil {
+				switch fullName(c.Common().StaticCallee()) {
+				case "reflect.(Value).String":
+					okOne = isIDField(c.Common().Args[0], getID.Params[0])
+				default:
+					if c.Common().StaticCallee().Name() == "IDAndType" && len(c.Common().Args) == 1 {
+						for _, a := range originsDeep(c.Common().Args[0]) {
+							if ic, _ := callOf(a); ic != nil && ic.Common().StaticCallee() != nil && fullName(ic.Common().StaticCallee()) == "reflect.(Value).Interface" && fromVal(ic.Common().Args[0], getID.Params[0]) {
+								okOne = true
+							}
+						}
+					}
+				}
+			}
+			if !okOne {
+				good = false
+			}
+		}
+		r.decide(good, prefix+".id-field", "(*Wrapper).GetID:"+p.describe(ret), p.pos(ret.Pos()), "reads the ID from the wrapped value on every call",
+			"Wrapper.GetID does not read the ID from the wrapped struct (IDAndType(w.val.Interface()) or FieldByName(\"ID\")): a cached ID goes stale when the struct's ID field is assigned directly, so selection by ID and the id sort rule see another ID than the resource holds")
+	}
+	r.floor("returns of GetID", n, 1)
 }
